@@ -9,6 +9,7 @@ import (
 	"runtime/debug"
 	"sort"
 	"strings"
+	"time"
 
 	"github.com/ryogrid/SamehadaDB/lib/catalog"
 	"github.com/ryogrid/SamehadaDB/lib/common"
@@ -329,13 +330,25 @@ func (s *SUT) AutoSQL(sql string) (res ExecResult) {
 			e, r := s.DB.ExecuteSQL(sql)
 			done <- reply{e, r}
 		}()
-		select {
-		case r := <-done:
-			err, rows = r.err, r.rows
-		case gp := <-simrt.GoPanicCh:
-			res.Panic = &PanicInfo{Val: gp.Val, Stack: gp.Stack, Site: panicSite(gp.Stack)}
-			s.Dead = true
-			return
+		spawns0 := simrt.PassthroughSpawns()
+	wait:
+		for {
+			select {
+			case r := <-done:
+				err, rows = r.err, r.rows
+				break wait
+			case gp := <-simrt.GoPanicCh:
+				res.Panic = &PanicInfo{Val: gp.Val, Stack: gp.Stack, Site: panicSite(gp.Stack)}
+				s.Dead = true
+				return
+			case <-time.After(50 * time.Millisecond):
+				// a single driver has no competitor: a statement that is aborted and re-queued again
+				// and again will never finish (each round starts a worker goroutine). Counted, not
+				// timed: the run is handed to the hang reporter without waiting for the watchdog.
+				if n := simrt.PassthroughSpawns() - spawns0; n > retryStormLimit {
+					reportRetryStorm(sql, n)
+				}
+			}
 		}
 	}
 	res.Err = err
